@@ -9,7 +9,9 @@ from . import c02, c03, c04, c05, c06  # noqa: F401  (registers the makers reuse
 
 ID = 'C11'
 LEVEL = 'exploration'
-RULE = ('modules from the expr / ctrl / calls / mem / inst generators with scripts reduced to NON-trapping, in-bounds calls '
+RULE = ('(a) flat: every numeric operator x (boundary pool x boundary pool, exhaustive) + seeded random operands, NON-trapping '
+        'evaluations only, in gcc and clang builds with -fsanitize=undefined,address(,float-cast-overflow) -fno-sanitize-recover: '
+        'the result must equal the interpreter and no report may appear; (b) modules from the expr / ctrl / calls / mem / inst generators with scripts reduced to NON-trapping, in-bounds calls '
         '(trapping calls are removed and the model re-run), plus a names generator (exotic import/export/function names). Each '
         'module is translated once and built under cells of the matrix {gcc, clang} x {-O0,-O1,-O2,-O3} x {-std=gnu89, default} x '
         '{plain, -fsanitize=undefined,address,float-cast-overflow -fno-sanitize-recover}; quick: 6 cells per module chosen '
@@ -164,6 +166,10 @@ def fails(m, script, cell, ninst, sig=None, wasm_bytes=None):
 
 
 def task(wid, seed, params):
+    if params.get('flat'):
+        r = f1.flat_task(wid, seed, params)
+        r['classes']['flat cell ' + params['cc']] += r['evaluations']
+        return r
     res = {'evaluations': 0, 'nontrivial': set(), 'classes': collections.Counter(), 'samples': [], 'violations': [],
            'infra': [], 'extra': collections.Counter()}
     ncells = params['ncells']
@@ -236,6 +242,8 @@ def task(wid, seed, params):
 
 
 def replay(rp):
+    if rp.get('kind') == 'flat':
+        return f1.flat_replay(rp)
     if rp.get('kind') != 'c11':
         return f1.case_replay(rp)
     wb = bytes.fromhex(rp['module_hex'])
@@ -246,9 +254,19 @@ def replay(rp):
 
 
 def plan(tier, seed):
+    # flat: every numeric operator x (boundary pool x boundary pool + seeded random operands), non-trapping evaluations only,
+    # in instrumented builds: any signed overflow / invalid shift / out-of-range conversion inside a helper macro is reported
+    ops = gen.INT_OPS + gen.FLOAT_OPS
     if tier == 'quick':
-        return [{'ncases': 10, 'ncells': 6, 'reduce_budget': 30} for _ in range(32)]
-    return [{'ncases': 20, 'ncells': 32, 'reduce_budget': 60} for _ in range(64)]
+        jobs = [{'ncases': 10, 'ncells': 6, 'reduce_budget': 30} for _ in range(32)]
+        flat_ccs, nslices, nrandom = ['gcc-O1-san', 'clang-O1-san'], 8, 300
+    else:
+        jobs = [{'ncases': 20, 'ncells': 32, 'reduce_budget': 60} for _ in range(64)]
+        flat_ccs, nslices, nrandom = ['gcc-O1-san', 'clang-O1-san', 'gcc-O2-san', 'clang-O0-san'], 16, 5000
+    for cc in flat_ccs:
+        for i in range(nslices):
+            jobs.append({'flat': True, 'ops': ops[i::nslices], 'cc': cc, 'nrandom': nrandom, 'full_pairs': True, 'no_traps': True})
+    return jobs
 
 
 def run(tier, seed):
